@@ -165,7 +165,7 @@ def _struct_case(arg):
     rg = rgrids()[rname]
     n = rg.size
     centre = np.array(CENTRES[ci]) + (lattice.jitter(seed, "c", 0.0, 0.2) if ci else 0.0)
-    rotate = {0: 0, 1: 1, 2: 37, 3: 2**32 - n - 1, 4: np.int64(37), 5: np.int32(1)}[rotate_code]
+    rotate = {0: 0, 1: 1, 2: 37, 3: 2**32 - n - 1, 4: np.int64(37), 5: np.int32(1), 6: True, 7: False}[rotate_code]
     case = {"route": "structure", "rgrid": rname, "method": method, "kind": kind, "seq": list(seq), "centre": ci,
             "rotate_code": rotate_code}
     tag = "structure"
@@ -191,7 +191,7 @@ def _struct_case(arg):
     if not (np.array_equal(g.points, g2.points) and np.array_equal(g.weights, g2.weights)):
         res.violation(f"{tag}:not-reproducible-from-seed", f"two builds with rotate={rotate} differ", case)
     if rotate_code >= 4:
-        # a NumPy integer seed is the same seed as the Python integer of equal value
+        # a NumPy integer seed, or the flags True / False (Python ints 1 / 0), are the same seed as the Python integer of equal value
         with warnings.catch_warnings():
             warnings.simplefilter("ignore")
             gi = AtomGrid(rg, center=centre, rotate=int(rotate), method=method, **kw)
@@ -529,7 +529,7 @@ def run(ctx):
                 seqs = [tuple(v) for v in lattice.deviations([alpha] * n, 2)]
             for k, seq in enumerate(seqs):
                 # centre / rotation alphabet: complete for the first sequences, deviation <= 1 otherwise
-                combos = list(itertools.product((0, 1), (0, 1, 2, 3, 4, 5))) if (k < 4 or ctx.thorough and k % 5 == 0) else [(0, 0), (1, 2), (k % 2, (k % 3) + 1)]
+                combos = list(itertools.product((0, 1), (0, 1, 2, 3, 4, 5, 6, 7))) if (k < 4 or ctx.thorough and k % 5 == 0) else [(0, 0), (1, 2), (k % 2, (k % 3) + 1)]
                 for ci, rc in combos:
                     jobs.append(("s", (rname, method, "degrees", seq, ci, rc, ctx.seed)))
             for seq in seqs[:: max(1, len(seqs) // 12)]:
